@@ -741,6 +741,14 @@ impl FailSafe {
         root: &CertRef,
         buf: &mut [u8],
     ) -> Result<(), Error> {
+        // The leaf must be a NOC: the chain verifier applies the CA usage policy
+        // to a CA certificate wherever it stands in the chain (so that a root can
+        // be validated on its own), hence it would let an ICAC/RCAC through in
+        // the leaf position.
+        if !noc.is_noc()? {
+            return Err(ErrorCode::InvalidData.into());
+        }
+
         let mut verifier = noc.verify_chain_start(crypto, time);
 
         if let Some(icac) = icac {
